@@ -214,11 +214,40 @@ Definition case_read (l : list Z) : list Z :=
   | _ => [-1]
   end.
 
+(** ** Reference layout (kind 6): the whitepaper bytes of the layout of the
+    given shapes (Spec/Esri.v, Spec/Layout.v; no code of the library's model).
+    [6; type code; 8 header box values; n; ctor specs..] -> ref_shp, ref_shx *)
+From SF Require Import Spec.Esri Spec.Layout.
+Definition K_REF : Z := 6.
+
+Fixpoint build_all (cs : list ctor) : option (list shape) :=
+  match cs with
+  | [] => Some []
+  | c :: r => match build c, build_all r with Ok s, Some l => Some (s :: l) | _, _ => None end
+  end.
+
+Definition case_ref (l : list Z) : list Z :=
+  match l with
+  | tc :: a :: b :: c :: d :: e :: f :: g :: h :: rest =>
+      match st_decode tc, p_list p_ctor rest with
+      | Some t, Some (cts, []) =>
+          match build_all cts with
+          | Some ss =>
+              let hb := mkbox (mkpt a b e g) (mkpt c d f h) in
+              r_bytes (ref_shp (layout t hb ss)) ++ r_bytes (ref_shx (layout t hb ss))
+          | None => [-3]
+          end
+      | _, _ => [-1]
+      end
+  | _ => [-1]
+  end.
+
 Definition run_case2 (l : list Z) : list Z :=
   match l with
   | k :: r =>
       if k =? K_WHIST then case_whist r
       else if k =? K_READ then case_read r
+      else if k =? K_REF then case_ref r
       else run_case l
   | [] => [-1]
   end.
